@@ -31,9 +31,9 @@ fn world_query_binding_shared_column() {
     let mut s = 0u32;
     ecs_iter!(world, |a: &CompA, b: &CompA| { assert!(a.0 == b.0); s |= a.0; });
     assert!(s == 1 + 4);
-    let mut s3 = 0u32;
-    ecs_iter_borrow!(world, |a: &CompA, b: &CompA, c: &CompA| { assert!(a.0 == b.0 && b.0 == c.0); s3 |= a.0; });
-    assert!(s3 == 1 + 4);
+    let mut s2 = 0u32;
+    ecs_iter_borrow!(world, |a: &CompA, b: &CompA| { assert!(a.0 == b.0); s2 |= a.0; });
+    assert!(s2 == 1 + 4);
     assert!(ecs_find!(world, solo, |a: &CompA, b: &CompA| a.0 + b.0) == Some(2));
     assert!(ecs_find!(world, EntityAny::from(solo), |a: &CompA, b: &CompA| a.0 + b.0) == Some(2));
     assert!(ecs_find!(world, EntityAny::from(none), |a: &CompA, b: &CompA| a.0 + b.0).is_none());
